@@ -316,7 +316,7 @@ def prepare_ws(root, name, harness_files, config, for_replay=False, extra_text=N
 def _limits(mem_gb):
     def f():
         os.setsid()
-        lim = max(24, 3 * mem_gb) * 1024 ** 3   # @mem is the scheduling weight (expected RSS); the hard cap is three times that, at least 24 GB
+        lim = min(max(24, 3 * mem_gb), 56) * 1024 ** 3   # @mem is the scheduling weight (expected RSS); the hard cap is three times that, at least 24 GB
         resource.setrlimit(resource.RLIMIT_AS, (lim, lim))
     return f
 
@@ -453,7 +453,7 @@ def classify(h, res, jpath, logtext, rc, timed_out):
     checks = r.get("checks", [])
     res.total = len(checks)
     if re.search(r"Solver ran out of memory|std::bad_alloc", logtext):
-        res.reason = "CBMC out of memory (address-space cap %d GB)" % max(24, 3 * h.mem)
+        res.reason = "CBMC out of memory (address-space cap %d GB)" % min(max(24, 3 * h.mem), 56)
         return
     if not checks:
         if re.search(r"out of memory|std::bad_alloc|Status: ERROR", logtext, re.I):
